@@ -139,20 +139,30 @@ def _state_rooted(e, state, salias):
     return r is not None and (r == state or r in salias)
 
 
-def _snapshot(e, params, alias):
+SCALAR_ATTRS = ('shape', 'dtype', 'ndim', 'size', 'value', 'name', '__name__', 'str', 'kind', 'itemsize', 'nbytes', 'char', 'byteorder')
+_HELPERS = {}        # id(prog-module) -> {function name: FunctionDef}: one-return module-level helpers (set by analyse_state)
+
+
+def _snapshot(e, params, alias, helpers=None, depth=0):
     """True when the expression is a value snapshot (immutable or fresh copy) of what it mentions"""
+    helpers = helpers if helpers is not None else _HELPERS.get('current', {})
     if isinstance(e, ast.Constant):
         return True
     if isinstance(e, (ast.Tuple,)):
-        return all(_snapshot(x, params, alias) for x in e.elts)
+        return all(_snapshot(x, params, alias, helpers, depth) for x in e.elts)
     if isinstance(e, ast.Call):
         nm = e.func.attr if isinstance(e.func, ast.Attribute) else (e.func.id if isinstance(e.func, ast.Name) else None)
         if nm == 'astype' and any(k.arg == 'copy' for k in e.keywords):
             return False
         if nm in SNAPSHOT_METHODS or nm in SNAPSHOT_FUNCS:
             return True
+        if isinstance(e.func, ast.Name) and e.func.id in helpers and depth < 3:
+            h = helpers[e.func.id]                  # a private helper `def token(a): return (a.dtype.str, a.shape, a.tobytes())`
+            hp = {a.arg for a in h.args.args}
+            rets = [n for n in ast.walk(h) if isinstance(n, ast.Return)]
+            return len(rets) == 1 and rets[0].value is not None and _snapshot(rets[0].value, hp, {}, helpers, depth + 1)
         return False
-    if isinstance(e, ast.Attribute) and e.attr in ('shape', 'dtype', 'ndim', 'size', 'value', 'name', '__name__'):
+    if isinstance(e, ast.Attribute) and e.attr in SCALAR_ATTRS:
         return True
     if isinstance(e, (ast.BinOp, ast.UnaryOp, ast.Compare, ast.BoolOp, ast.JoinedStr)):
         return True
@@ -161,6 +171,7 @@ def _snapshot(e, params, alias):
 
 def analyse_state(prog, m, state, funcs, order_relevant):
     """-> (status, detail, where node) for one module-level state name; funcs: the functions of m mentioning it"""
+    _HELPERS['current'] = {st.name: st for st in m.tree.body if isinstance(st, ast.FunctionDef) and len([n for n in ast.walk(st) if isinstance(n, ast.Return)]) == 1}
     verdicts = []
     key_params_ok = True
     for f in funcs:
